@@ -429,7 +429,7 @@ def run_case(case):
     pend = any(k["during_call"] is not None for k in kills)
     res = {"verdict": verdict, "digest": s.h.hexdigest()[:24], "shape": s.hs.hexdigest()[:16], "steps": s.steps,
            "switches": s.switches, "sim_time": round(s.now, 3), "faults": dict(faults),
-           "probes": {"kill_" + k["where"].replace(":", "_"): 1 for k in kills},
+           "probes": dict({"kill_" + k["where"].replace(":", "_"): 1 for k in kills}, **W.stats),
            "nontrivial": pend, "extra": {"failing_calls": sum(1 for c in calls if c.get("outcome") not in ("ok", None)),
                                          "dec_mismatch": s.dec_mismatch},
            "sample": {"n_jobs": case["n_jobs"], "calls": [c.get("outcome") for c in calls], "kills": kills}}
